@@ -14,8 +14,8 @@ import struct
 from dataclasses import dataclass, field
 from typing import Any, Dict, List, Optional, Tuple
 
-from ..consteval import ConstEval, EnumVal, StructVal, enum_members
-from ..core import AnalysisError, ap, atoms, calls, kw, norm, src, walk, FUNC_TYPES
+from ..consteval import ConstEval, EnumVal, StructVal, enum_members, record_fields
+from ..core import AnalysisError, ap, atoms, calls, conditions, kw, norm, src, walk, FUNC_TYPES
 
 OBJ = "hippolyzer/lib/base/objects.py"
 TMPL = "hippolyzer/lib/base/templates.py"
@@ -156,6 +156,10 @@ class Val:
         return set(self.covers) if self.covers is not None else {p for p, _ in self.toks}
 
 
+class Rec(dict):
+    """values read from the stream, held by field name (a NamedTuple built from a struct read)"""
+
+
 class FastInterp:
     def __init__(self, ctx, fi, cls_info):
         self.ctx = ctx
@@ -222,6 +226,11 @@ class FastInterp:
             return self.env[n.id]
         if isinstance(n, ast.Tuple):
             return [self.expr(e) for e in n.elts]
+        if isinstance(n, ast.Attribute) and isinstance(n.value, ast.Name) and isinstance(self.env.get(n.value.id), Rec):
+            rec = self.env[n.value.id]
+            if n.attr not in rec:
+                raise AnalysisError(f"C13: record {n.value.id} has no field {n.attr}")
+            return rec[n.attr]
         if isinstance(n, ast.Subscript) and isinstance(n.slice, ast.Constant) and isinstance(n.slice.value, int):
             base = self.expr(n.value)
             if isinstance(base, list):
@@ -249,6 +258,17 @@ class FastInterp:
                 if last == "read":
                     return self.new(self.spec_ref(n.args[0]))
                 raise AnalysisError(f"C13: unsupported reader call {src(n)}")
+            # NamedTuple._make(<values read>) / NamedTuple(*<values read>): a record of the values, by field name
+            rci = self.repo.resolve_class(fname[:-len("._make")] if last == "_make" else fname, self.fi.module) if fname else None
+            if rci is not None and record_fields(self.repo, rci) is not None and n.args:
+                fields = record_fields(self.repo, rci)
+                a0 = n.args[0]
+                vals = self.expr(a0.value if isinstance(a0, ast.Starred) else a0) if (last == "_make" or isinstance(a0, ast.Starred)) \
+                    and len(n.args) == 1 else [self.expr(a) for a in n.args]
+                if not isinstance(vals, list) or len(vals) != len(fields):
+                    raise AnalysisError(f"C13: {src(n)}: {len(vals) if isinstance(vals, list) else '?'} values for "
+                                        f"{len(fields)} record fields")
+                return Rec(zip(fields, vals))
             if last == "decode" and isinstance(n.func, ast.Attribute):
                 inner = self.expr(n.func.value) if not (ap(n.func.value) or "").startswith("cls.") else None
                 if inner is None:
@@ -287,7 +307,8 @@ class FastInterp:
 
     def assign(self, target, value):
         if isinstance(target, ast.Name):
-            if isinstance(value, Val) and value.none and target.id in self.env and not self.env[target.id].none \
+            if isinstance(value, Val) and value.none and target.id in self.env and isinstance(self.env[target.id], Val) \
+                    and not self.env[target.id].none \
                     and self.gate is not None:
                 raise AnalysisError("C13: gated reset to None not supported")
             self.env[target.id] = value
@@ -406,6 +427,7 @@ class FastInterp:
 
 
 def run(ctx):
+    r4(ctx)
     repo = ctx.repo
     ctx.rule("C13.R1", "field-by-field agreement of the hand-written reader with the template: same output keys "
                        "in the same wire order, same gate flag, same wire signature")
@@ -423,9 +445,17 @@ def run(ctx):
     where = fi.where
     # output keys -> values
     fast = []
+    ret_items = []
     for k, v in zip(interp.ret.keys, interp.ret.values):
+        if k is None and isinstance(v, ast.Call) and isinstance(v.func, ast.Attribute) and v.func.attr == "_asdict" \
+                and isinstance(v.func.value, ast.Name) and isinstance(interp.env.get(v.func.value.id), Rec):
+            for fname_, fval in interp.env[v.func.value.id].items():
+                ret_items.append((ast.copy_location(ast.Constant(value=fname_), v), fval, v))
+            continue
+        ret_items.append((k, None, v))
+    for k, pre, v in ret_items:
         ctx.require(isinstance(k, ast.Constant), "fast reader dict key is not a literal")
-        val = interp.expr(v)
+        val = pre if pre is not None else interp.expr(v)
         ctx.require(isinstance(val, Val), f"fast reader value for {k.value} not analysable")
         fast.append({"key": k.value, "val": val, "node": v})
     ctx.floor("C13.R1", "fast reader keys", len(fast), 40)
@@ -680,3 +710,49 @@ def run(ctx):
     ctx.stats["stream_values"] = interp.pos
     ctx.assume("ref(...) sub-templates are shared objects on both sides (identical by construction)")
     ctx.assume("malformed payloads and value equality inside sub-templates are not decided")
+
+
+def r4(ctx):
+    """Cache-file framing: RegionViewerObjectCache.from_file walks `[header][payload of header.size bytes]` records.
+    An iteration that has read a header may leave without reading the payload only for a reason stated by the size
+    field itself (nothing to read / size declared invalid) or at end of data; any other skip in front of the payload
+    read leaves the cursor inside the payload and every later entry is parsed from the wrong offset."""
+    repo = ctx.repo
+    ctx.rule("C13.R4", "viewer object cache framing: in RegionViewerObjectCache.from_file every entry whose header was "
+                       "read has its payload consumed before the loop moves on, unless the size field itself rules it out")
+    f0 = repo.fn("RegionViewerObjectCache.from_file")
+    from .common import class_methods_reachable
+    hosts = []
+    for g in class_methods_reachable(repo, f0, depth=2):
+        for c in calls(g.node):
+            if isinstance(c.func, ast.Attribute) and c.func.attr == "read_bytes" and c.args:
+                hosts.append((g, c))
+    ctx.require(len(hosts) == 1, f"C13.R4: from_file (and its helpers) no longer have exactly one payload read ({len(hosts)})")
+    f, pr = hosts[0]
+    size_names = {n.id for n in ast.walk(pr.args[0]) if isinstance(n, ast.Name)}
+    loop = next((l for l in walk(f.node) if isinstance(l, (ast.For, ast.While)) and any(x is pr for x in ast.walk(l))), None)
+    ctx.require(bool(size_names), "C13.R4: payload read has no size variable")
+    if f is f0:
+        ctx.require(loop is not None, "C13.R4: payload read is not inside the entry loop")
+    # the statement list that reads one entry: the loop body, or the body of the per-entry helper
+    body = loop.body if loop is not None else f.node.body
+    pidx = next(i for i, st in enumerate(body) if any(x is pr for x in ast.walk(st)))
+    first_read = next((i for i, st in enumerate(body[:pidx]) if any(isinstance(c, ast.Call) and isinstance(c.func, ast.Attribute)
+                                                                    and c.func.attr == "read" for c in ast.walk(st))), None)
+    ctx.require(first_read is not None, "C13.R4: no header read in front of the payload read")
+    n = 0
+    for st in body[first_read + 1:pidx]:
+        for x in ast.walk(st):
+            if isinstance(x, (ast.Continue, ast.Return)):
+                conds = conditions(x, f.node)
+                names = set()
+                for c in conds:
+                    if c.kind in ("if", "early-exit") and any(c.test is t or any(c.test is y for y in ast.walk(t))
+                                                              for t in [s_.test for s_ in ast.walk(st) if isinstance(s_, ast.If)]):
+                        names |= {y.id for y in ast.walk(c.test) if isinstance(y, ast.Name)}
+                n += 1
+                ok = bool(names) and names <= size_names
+                ctx.ob("C13.R4", f"from_file: skip `{norm(st)[:60]}` in front of the payload read depends on the size field only",
+                       ok, ctx.w(f, x), f"the entry is skipped on {sorted(names - size_names) or 'no condition'} before its "
+                       f"{'/'.join(sorted(size_names))} payload bytes are consumed: the next header is read from inside the payload")
+    ctx.ob("C13.R4", "from_file: payload read follows the header reads in the entry loop", True, ctx.w(f, pr))
